@@ -5,12 +5,20 @@ from mc import core, det, vnet, fe, xstate
 PROPERTY = 'C10'
 ENGINE = 'E2 explicit-state search (BFS to fixpoint + all histories to depth k, no dedup) over the real connection handler on the E3 virtual network, one connection at a time'
 LEVEL = 'model_checking'
+DIRECTED_ADDITIONS = 'malformed / sid-less / unstorable messages, five near-miss foreign sids, a second token under the same correlation value, loopback-TCP replays built from the same message constructor'      # members added during the seeded-change campaign (DESIGN 7); counted under their own vacuity counters
+
 ALPHABET = ['config1', 'config2', 'upload1', 'upload2', 'search', 'search-other', 'reconnect-before-cleanup', 'reconnect-after-cleanup', 'foreign-sid', 'unknown-type',
             'config-malformed', 'upload-malformed', 'search-malformed', 'no-sid', 'config-unstorable']
 DEPTH = {'quick': 4, 'thorough': 5}
 
 
 def describe(tier):
+    d = _describe(tier)
+    d['rule'] = d['rule'] + ' Directed additions: ' + DIRECTED_ADDITIONS + '.'
+    return d
+
+
+def _describe(tier):
     return {
         'rule': 'state = history of protocol events on ONE service id, replayed on a fresh virtual network + fresh ServicesManager + fresh sid; '
                 'alphabet = {config(c1), config(c2), upload(e1), upload(e2), search(t), reconnect before the 1 s cleanup, reconnect after it, a '
